@@ -74,13 +74,23 @@ CHECKS.append(
          note="Trusted: the pinned back-ends emit tokens of their normative grammars (A8); rustc MIR; regex engines; the audited "
               "table with one reason per entry.",
          technique="static: DFA language inclusion + MIR panic-site enumeration with dominator-based discharge + call-graph reachability"))
+CHECKS.append(
+    dict(id="C15", level="other", engine="E1+E3",
+         text="Error discipline of the stream machinery decided on every path of every function in scope: no Result of a call "
+              "is dropped or left behind on an early return; adapter closures call the downstream callback at most once per "
+              "item; SourceError never wraps a callback result and SinkError always does; variant-preserving re-wrapping; "
+              "try_for_each_item loops exactly while Ok(true); swapped-out buffers restored on all paths. Decides the "
+              "structural necessary conditions of 'exact prefix, right blame', not the third-party parsers' bookkeeping.",
+         note="Trusted: rustc MIR (destination types, resolved callees). A Result handed to another function or stored counts "
+              "as delivered.",
+         technique="static: path-sensitive must-use dataflow over MIR + provenance/blame rules + parity dataflow"))
 NOT_APPLICABLE = [
     dict(property_id="C17", reason="relativise/resolve inverse is an equation between runtime-computed strings "
          "(byte-offset arithmetic); no structural clause that is a genuine necessary condition without freezing the "
          "code; static analysis in reach cannot decide it"),
 ]
 # properties not yet wired in this commit are listed as not applicable *for now* by gen (see below)
-PENDING = ["C01", "C02", "C05", "C06", "C07", "C11", "C12", "C13", "C14", "C15",
+PENDING = ["C01", "C02", "C05", "C06", "C07", "C11", "C12", "C13", "C14",
            "C18"]
 for p in PENDING:
     if p not in [c["id"] for c in CHECKS]:
